@@ -108,55 +108,11 @@ func checkC20Variant(P *Program, r *Result, variant string) {
 	}
 	allow := map[string]bool{"len": true, "String": true, "Slice": true, "SliceData": true, "StringData": true}
 	pos := func(fn *ssa.Function) string { return P.pos(fn.Pos()) }
-	if variant == "go1.21" {
-		// BinaryToString(b) = unsafe.String(unsafe.SliceData(b), len(b))
-		{
-			fn := b2s
-			ret := singleReturn(fn)
-			var ptrOK, lenOK bool
-			detail := ""
-			if ret != nil && len(ret.Results) == 1 {
-				if c := builtinCall(ret.Results[0], "String"); c != nil {
-					if d := builtinCall(c.Common().Args[0], "SliceData"); d != nil && d.Common().Args[0] == ssa.Value(fn.Params[0]) {
-						ptrOK = true
-					}
-					if l := builtinCall(c.Common().Args[1], "len"); l != nil && l.Common().Args[0] == ssa.Value(fn.Params[0]) {
-						lenOK = true
-					}
-				} else {
-					detail = "result is not unsafe.String(...)"
-				}
-			}
-			r.add("PTR", shortName(fn)+"@"+variant, "return", "data pointer is unsafe.SliceData(b), no offset", pos(fn), ptrOK, detail)
-			r.add("LEN", shortName(fn)+"@"+variant, "return", "length argument is len(b)", pos(fn), lenOK, detail)
-			se := sideEffectsOf(fn, allow)
-			r.add("PURE", shortName(fn)+"@"+variant, "body", "no other effect", pos(fn), len(se) == 0, strings.Join(se, "; "))
-		}
-		{
-			fn := s2b
-			ret := singleReturn(fn)
-			var ptrOK, lenOK bool
-			detail := ""
-			if ret != nil && len(ret.Results) == 1 {
-				if c := builtinCall(ret.Results[0], "Slice"); c != nil {
-					if d := builtinCall(c.Common().Args[0], "StringData"); d != nil && d.Common().Args[0] == ssa.Value(fn.Params[0]) {
-						ptrOK = true
-					}
-					if l := builtinCall(c.Common().Args[1], "len"); l != nil && l.Common().Args[0] == ssa.Value(fn.Params[0]) {
-						lenOK = true
-					}
-				} else {
-					detail = "result is not unsafe.Slice(...) (a header cast would expose garbage capacity)"
-				}
-			}
-			r.add("PTR", shortName(fn)+"@"+variant, "return", "data pointer is unsafe.StringData(s), no offset", pos(fn), ptrOK, detail)
-			r.add("LEN", shortName(fn)+"@"+variant, "return", "length (= capacity) argument is len(s)", pos(fn), lenOK, detail)
-			se := sideEffectsOf(fn, allow)
-			r.add("PURE", shortName(fn)+"@"+variant, "body", "no other effect", pos(fn), len(se) == 0, strings.Join(se, "; "))
-		}
-		return
+	type verdict struct {
+		ptr, ln, pure bool
+		detail        string
 	}
-	// pre-go1.21 variant: header reinterpretation
+	good := func(v verdict) bool { return v.ptr && v.ln && v.pure }
 	castOfAllocHolding := func(v ssa.Value, p *ssa.Parameter, elemName string) (*ssa.Alloc, bool) {
 		// v = convert *T <- unsafe.Pointer(convert unsafe.Pointer <- *X (alloc)), the alloc initialised with p (if p != nil)
 		cv, ok := v.(*ssa.Convert)
@@ -184,29 +140,80 @@ func checkC20Variant(P *Program, r *Result, variant string) {
 		}
 		return nil, false
 	}
-	{
-		fn := b2s
-		ret := singleReturn(fn)
-		ok1 := false
-		if ret != nil && len(ret.Results) == 1 {
-			if ld, ok := ret.Results[0].(*ssa.UnOp); ok && ld.Op == token.MUL {
-				if _, ok := castOfAllocHolding(ld.X, fn.Params[0], "string"); ok {
-					ok1 = true
+	// ---- BinaryToString: either unsafe.String(unsafe.SliceData(b), len(b)) or the (data, len) prefix of b's header read as a string
+	b2sBuiltin := func(fn *ssa.Function) verdict {
+		v := verdict{detail: "result is not unsafe.String(unsafe.SliceData(b), len(b))"}
+		if ret := singleReturn(fn); ret != nil && len(ret.Results) == 1 {
+			if c := builtinCall(ret.Results[0], "String"); c != nil {
+				if d := builtinCall(c.Common().Args[0], "SliceData"); d != nil && d.Common().Args[0] == ssa.Value(fn.Params[0]) {
+					v.ptr = true
+				}
+				if l := builtinCall(c.Common().Args[1], "len"); l != nil && l.Common().Args[0] == ssa.Value(fn.Params[0]) {
+					v.ln = true
 				}
 			}
 		}
-		r.add("PTR", shortName(fn)+"@"+variant, "return", "result is the first two header words (data, len) of b reinterpreted as a string", pos(fn), ok1, "")
-		r.add("LEN", shortName(fn)+"@"+variant, "return", "length word is b's length word (same reinterpretation)", pos(fn), ok1, "")
-		var se []string
-		for _, s := range sideEffectsOf(fn, allow) {
-			se = append(se, s)
+		se := sideEffectsOf(fn, allow)
+		v.pure = len(se) == 0
+		if !v.pure {
+			v.detail = strings.Join(se, "; ")
 		}
-		r.add("PURE", shortName(fn)+"@"+variant, "body", "no other effect", pos(fn), len(se) == 0, strings.Join(se, "; "))
+		return v
 	}
-	{
-		fn := s2b
-		// *(*string)(unsafe.Pointer(&b)) = s ; (*sliceHeader)(unsafe.Pointer(&b)).Cap = len(s) ; return b
-		var hdrStore, capStore bool
+	b2sHeader := func(fn *ssa.Function) verdict {
+		v := verdict{detail: "result is not the (data, len) header prefix of b read as a string"}
+		if ret := singleReturn(fn); ret != nil && len(ret.Results) == 1 {
+			if ld, ok := ret.Results[0].(*ssa.UnOp); ok && ld.Op == token.MUL {
+				if _, ok := castOfAllocHolding(ld.X, fn.Params[0], "string"); ok {
+					v.ptr, v.ln = true, true
+				}
+			}
+		}
+		se := sideEffectsOf(fn, allow)
+		v.pure = len(se) == 0
+		if !v.pure {
+			v.detail = strings.Join(se, "; ")
+		}
+		return v
+	}
+	// ---- StringToBinary: unsafe.Slice(unsafe.StringData(s), len(s)), or a 3-word header whose data/len are s's and whose cap is len(s)
+	s2bBuiltin := func(fn *ssa.Function) verdict {
+		v := verdict{detail: "result is not unsafe.Slice(unsafe.StringData(s), len(s))"}
+		if ret := singleReturn(fn); ret != nil && len(ret.Results) == 1 {
+			if c := builtinCall(ret.Results[0], "Slice"); c != nil {
+				if d := builtinCall(c.Common().Args[0], "StringData"); d != nil && d.Common().Args[0] == ssa.Value(fn.Params[0]) {
+					v.ptr = true
+				}
+				if l := builtinCall(c.Common().Args[1], "len"); l != nil && l.Common().Args[0] == ssa.Value(fn.Params[0]) {
+					v.ln = true
+				}
+			}
+		}
+		se := sideEffectsOf(fn, allow)
+		v.pure = len(se) == 0
+		if !v.pure {
+			v.detail = strings.Join(se, "; ")
+		}
+		return v
+	}
+	s2bHeader := func(fn *ssa.Function) verdict {
+		v := verdict{detail: "result header is not filled from s with capacity len(s)"}
+		isLenS := func(x ssa.Value) bool {
+			l := builtinCall(x, "len")
+			return l != nil && l.Common().Args[0] == ssa.Value(fn.Params[0])
+		}
+		isDataS := func(x ssa.Value) bool {
+			for {
+				cv, ok := x.(*ssa.Convert)
+				if !ok {
+					break
+				}
+				x = cv.X
+			}
+			d := builtinCall(x, "StringData")
+			return d != nil && d.Common().Args[0] == ssa.Value(fn.Params[0])
+		}
+		var hdrStore, dataStore, lenStore, capStore bool
 		var extra []string
 		var resAlloc *ssa.Alloc
 		for _, b := range fn.Blocks {
@@ -221,23 +228,30 @@ func checkC20Variant(P *Program, r *Result, variant string) {
 					if fa, ok := x.Addr.(*ssa.FieldAddr); ok {
 						if al, ok := castOfAllocHolding(fa.X, nil, "sliceHeader"); ok {
 							st := deref(fa.X.Type()).Underlying().(*types.Struct)
-							if st.Field(fa.Field).Name() == "Cap" && fa.Field == 2 && st.NumFields() == 3 {
-								if l := builtinCall(x.Val, "len"); l != nil && l.Common().Args[0] == ssa.Value(fn.Params[0]) {
+							if st.NumFields() == 3 {
+								if resAlloc == nil {
+									resAlloc = al
+								}
+								switch {
+								case fa.Field == 2 && isLenS(x.Val):
 									capStore = true
-									if resAlloc == nil {
-										resAlloc = al
-									}
+									continue
+								case fa.Field == 1 && isLenS(x.Val):
+									lenStore = true
+									continue
+								case fa.Field == 0 && isDataS(x.Val):
+									dataStore = true
 									continue
 								}
 							}
 						}
 					}
 					if _, ok := x.Addr.(*ssa.Alloc); ok {
-						continue // zero-initialisation of the result variable
+						continue // zero-initialisation / spill of the result variable
 					}
 					extra = append(extra, "store")
 				case ssa.CallInstruction:
-					if bi, ok := x.Common().Value.(*ssa.Builtin); !ok || bi.Name() != "len" {
+					if bi, ok := x.Common().Value.(*ssa.Builtin); !ok || (bi.Name() != "len" && bi.Name() != "StringData") {
 						extra = append(extra, "call "+calleeFullName(x))
 					}
 				}
@@ -249,9 +263,36 @@ func checkC20Variant(P *Program, r *Result, variant string) {
 				retOK = true
 			}
 		}
-		r.add("PTR", shortName(fn)+"@"+variant, "return", "result header (data, len) is s's header", pos(fn), hdrStore && retOK, "")
-		r.add("LEN", shortName(fn)+"@"+variant, "return", "capacity word is set to len(s) in a 3-word {Data,Len,Cap} header", pos(fn), capStore && retOK, "")
-		r.add("PURE", shortName(fn)+"@"+variant, "body", "no other effect", pos(fn), len(extra) == 0, strings.Join(extra, "; "))
+		v.ptr = retOK && (hdrStore || (dataStore && lenStore))
+		v.ln = retOK && capStore && (hdrStore || lenStore)
+		v.pure = len(extra) == 0
+		if !v.pure {
+			v.detail = strings.Join(extra, "; ")
+		}
+		return v
+	}
+	pick := func(vs ...verdict) verdict {
+		for _, v := range vs {
+			if good(v) {
+				v.detail = ""
+				return v
+			}
+		}
+		return vs[0]
+	}
+	{
+		fn := b2s
+		v := pick(b2sBuiltin(fn), b2sHeader(fn))
+		r.add("PTR", shortName(fn)+"@"+variant, "return", "the result's data pointer is b's data pointer, no offset", pos(fn), v.ptr, v.detail)
+		r.add("LEN", shortName(fn)+"@"+variant, "return", "the result's length is len(b)", pos(fn), v.ln, v.detail)
+		r.add("PURE", shortName(fn)+"@"+variant, "body", "no other effect", pos(fn), v.pure, v.detail)
+	}
+	{
+		fn := s2b
+		v := pick(s2bBuiltin(fn), s2bHeader(fn))
+		r.add("PTR", shortName(fn)+"@"+variant, "return", "the result's data pointer is s's data pointer, no offset", pos(fn), v.ptr, v.detail)
+		r.add("LEN", shortName(fn)+"@"+variant, "return", "the result's length and capacity are len(s)", pos(fn), v.ln, v.detail)
+		r.add("PURE", shortName(fn)+"@"+variant, "body", "no other effect", pos(fn), v.pure, v.detail)
 	}
 }
 
@@ -350,12 +391,25 @@ func checkC19(P *Program, r *Result, tier string) {
 	if fn := P.Func(rel, "NewDefaultTransport"); r.require("apache.NewDefaultTransport", fn != nil) {
 		// the *bytes.Buffer branch goes through NewBufferTransport on the asserted value
 		ok := false
+		isAsserted := func(v ssa.Value) bool {
+			ex, isEx := v.(*ssa.Extract)
+			if !isEx || ex.Index != 0 {
+				return false
+			}
+			ta, isTA := ex.Tuple.(*ssa.TypeAssert)
+			return isTA && ta.X == ssa.Value(fn.Params[0])
+		}
 		for _, c := range callsIn(fn) {
-			if cal := c.Common().StaticCallee(); cal != nil && cal.Name() == "NewBufferTransport" {
-				if ex, isEx := c.Common().Args[0].(*ssa.Extract); isEx {
-					if ta, isTA := ex.Tuple.(*ssa.TypeAssert); isTA && ta.X == ssa.Value(fn.Params[0]) && ex.Index == 0 {
-						ok = true
-					}
+			if cal := c.Common().StaticCallee(); cal != nil && cal.Name() == "NewBufferTransport" && isAsserted(c.Common().Args[0]) {
+				ok = true
+			}
+		}
+		// or the same reinterpretation written out in place
+		for _, ret := range returnsOf(fn) {
+			v := stripIface(ret.Results[0])
+			if c1, ok1 := v.(*ssa.Convert); ok1 && typeIsPtrTo(c1.Type(), "bufferTransport") {
+				if c2, ok2 := c1.X.(*ssa.Convert); ok2 && isUnsafePointer(c2.Type()) && isAsserted(c2.X) {
+					ok = true
 				}
 			}
 		}
@@ -400,6 +454,20 @@ func checkC19(P *Program, r *Result, tier string) {
 	}
 	// REMAINING
 	if fn := P.Method(rel, "defaultTransport", "RemainingBytes"); r.require("defaultTransport.RemainingBytes", fn != nil) {
+		// the method may hand its wrapped value to a package function that does the work
+		if ret := singleReturn(fn); ret != nil && len(fn.Blocks) == 1 {
+			if c := asCall(ret.Results[0]); c != nil {
+				if cal := c.Common().StaticCallee(); cal != nil && inRepo(cal) && cal.Blocks != nil && len(c.Common().Args) == 1 {
+					if _, isField := c.Common().Args[0].(*ssa.Field); isField {
+						r.Funcs[shortName(fn)] = true
+						fn = cal
+					} else if ld, isLd := c.Common().Args[0].(*ssa.UnOp); isLd && recvFieldOf(fn, ld.X) != "" {
+						r.Funcs[shortName(fn)] = true
+						fn = cal
+					}
+				}
+			}
+		}
 		A := newAnalysis(P)
 		fa := A.fa(fn)
 		fa.noGeneralize = true
@@ -446,7 +514,7 @@ func checkC19(P *Program, r *Result, tier string) {
 		}
 	}
 	// DISPATCH
-	regs := map[*ssa.Global]string{}
+	regs := map[string]string{}
 	for _, name := range []string{"RegisterCheckTStruct", "RegisterThriftRead", "RegisterThriftWrite"} {
 		fn := P.Func(rel, name)
 		if !r.require("apache."+name, fn != nil) {
@@ -456,8 +524,8 @@ func checkC19(P *Program, r *Result, tier string) {
 		for _, b := range fn.Blocks {
 			for _, in := range b.Instrs {
 				if st, isSt := in.(*ssa.Store); isSt {
-					if g, isG := st.Addr.(*ssa.Global); isG && st.Val == ssa.Value(fn.Params[0]) {
-						regs[g] = name
+					if k := pathOf(st.Addr); strings.HasPrefix(k, "G:") && !strings.ContainsAny(k, "*[{") && st.Val == ssa.Value(fn.Params[0]) {
+						regs[k] = name
 						ok = true
 					}
 				}
@@ -465,13 +533,13 @@ func checkC19(P *Program, r *Result, tier string) {
 		}
 		r.add("DISPATCH", shortName(fn), "store", "stores its argument in a callback variable", P.pos(fn.Pos()), ok, "")
 	}
-	usedG := map[*ssa.Global]string{}
+	usedG := map[string]string{}
 	for _, name := range []string{"CheckTStruct", "ThriftRead", "ThriftWrite"} {
 		fn := P.Func(rel, name)
 		if !r.require("apache."+name, fn != nil) {
 			continue
 		}
-		var g *ssa.Global
+		g := ""
 		okNilRet, okCall := false, false
 		detail := ""
 		for _, ret := range returnsOf(fn) {
@@ -483,8 +551,8 @@ func checkC19(P *Program, r *Result, tier string) {
 					detail = "result is not a call of the registered callback"
 					continue
 				}
-				gg, isG := ld.X.(*ssa.Global)
-				if !isG {
+				gg := pathOf(ld.X)
+				if !strings.HasPrefix(gg, "G:") || strings.ContainsAny(gg, "*[{") {
 					continue
 				}
 				argsOK := len(c.Common().Args) == len(fn.Params)
@@ -497,7 +565,7 @@ func checkC19(P *Program, r *Result, tier string) {
 				tested := false
 				for _, b := range fn.Blocks {
 					for _, in := range b.Instrs {
-						if l2, ok := in.(*ssa.UnOp); ok && l2.Op == token.MUL && l2.X == ssa.Value(gg) && guardedNonNil(c, l2) {
+						if l2, ok := in.(*ssa.UnOp); ok && l2.Op == token.MUL && pathOf(l2.X) == gg && guardedNonNil(c, l2) {
 							tested = true
 						}
 					}
@@ -517,7 +585,7 @@ func checkC19(P *Program, r *Result, tier string) {
 				}
 			}
 		}
-		if g != nil {
+		if g != "" {
 			if prev, dup := usedG[g]; dup {
 				okCall = false
 				detail = "shares its callback variable with " + prev
